@@ -1,6 +1,7 @@
 // C17 (row order part) — shared pieces: case generation and the bitwise comparison of two preconditioners.
 #pragma once
 #include <functional>
+#include <map>
 #include <memory>
 #include "c17_common.hpp"
 
@@ -35,6 +36,21 @@ inline OrderCase gen_order_case(Tape &t, int nmax, double max_contrast = 100.0) 
     oc.sorted = M;
     finish_order_case(t, oc);
     return oc;
+}
+
+// A' with the pattern of oc.sorted: diagonal grown by 10..50 % per row, off-diagonals shrunk by a common factor in [0.6,1] (or A' = A when
+// `same`); returned with sorted rows and with the entries of every row in the order of oc.shuffled.
+inline void perturbed_pair(Tape &t, const OrderCase &oc, bool same, Csr<double> &Ap, Csr<double> &Aps) {
+    Ap = oc.sorted;
+    if (!same) {
+        double g = t.uni(0.6, 1.0);
+        for (ptrdiff_t i = 0; i < Ap.n; ++i) { double di = 1.0 + t.uni(0.1, 0.5); for (ptrdiff_t j = Ap.ptr[i]; j < Ap.ptr[i + 1]; ++j) Ap.val[j] *= (Ap.col[j] == i ? di : g); }
+    }
+    Aps = oc.shuffled;
+    for (ptrdiff_t i = 0; i < Ap.n; ++i) {
+        std::map<ptrdiff_t, double> row; for (ptrdiff_t j = Ap.ptr[i]; j < Ap.ptr[i + 1]; ++j) row[Ap.col[j]] = Ap.val[j];
+        for (ptrdiff_t j = Aps.ptr[i]; j < Aps.ptr[i + 1]; ++j) Aps.val[j] = row[Aps.col[j]];
+    }
 }
 
 // Result of building + applying a preconditioner: either the outputs or the exception text
